@@ -45,10 +45,15 @@ def cases(tier, seed):
 
 def _last_actions(cfg):
     out = set()
+    nonlast = set()
 
     def lst(l):
-        if isinstance(l, list) and l and isinstance(l[-1], str) and not l[-1].endswith("!missing") and l[-1] != "inc":
-            out.add(l[-1])
+        if isinstance(l, list) and l:
+            for a in l[:-1]:
+                if isinstance(a, str):
+                    nonlast.add(a)
+            if isinstance(l[-1], str) and not l[-1].endswith("!missing") and l[-1] != "inc":
+                out.add(l[-1])
 
     def tr(t):
         if isinstance(t, dict):
@@ -67,7 +72,7 @@ def _last_actions(cfg):
         for s in (c.get("states") or {}).values():
             walk(s)
     walk(cfg)
-    return out
+    return out - nonlast
 
 
 def describe(case):
@@ -204,7 +209,10 @@ def post_check(case, res):
                 out.append({"key": "abort/sync:status-left-running", "detail": json.dumps(ab)})
             if ab["completed_transitions"] == 0 and ab["before"] != ab["after"]:
                 out.append({"key": "abort/sync:configuration-not-restored", "detail": json.dumps(ab)})
-            if ab["completed_transitions"] == 0 and ab["timers"] != ab["expected_timers"]:
+            from collections import Counter
+            # every after-transition of every (restored) active state has a live timer again; timers armed for
+            # states the aborted transition had started to enter are outside this property's statement
+            if ab["completed_transitions"] == 0 and (Counter(ab["expected_timers"]) - Counter(ab["timers"])):
                 out.append({"key": "abort/sync:timers-not-rearmed", "detail": json.dumps(ab)})
             if out:
                 break
